@@ -1269,7 +1269,10 @@ func (fc *FuncCtx) backEdge(li *loopInfo, p *ssa.BasicBlock, ec string, st *Stat
 		if err := catchTr(fmt.Sprintf("%s %s invariant %d", fc.fnName, label, i), func() { t = env.trBool(c.E) }); err != nil {
 			panic(trErr(err.Error()))
 		}
+		// a known-finding `when` speaks about the values at the end of the iteration
+		fc.curEnv = fc.envFor(st, fc.namesAt(p.Instrs[len(p.Instrs)-1]))
 		fc.oblige(label+"/inv-step", clauseLabel(c, i)+suffix, ec, t, "invariant preserved by the loop body: "+c.Src, c.Tags)
+		fc.curEnv = nil
 	}
 	for i, f := range fc.frameInvariants(li) {
 		if g := f(st); g != "true" {
